@@ -184,10 +184,17 @@ def _solve_all(V, P, solver, A, X, tag, obs, transes=TRANS, shapekeys=SHAPEKEYS,
         for sk in shapekeys:
             xs = _shaped(X, sk)
             b = _fin(V, M @ xs)
-            x = solver.solve(b.copy(), trans=t)
+            b_in = b.copy()
+            if not V.symbolic and np.ndim(b_in) == 2:
+                b_in = np.asfortranarray(b_in)      # the layout LAPACK can work on in place (overwrite_b)
+            x = solver.solve(b_in, trans=t)
             obs["x:%s:%s" % (t, sk)] = x
             obs["b:%s:%s" % (t, sk)] = b
+            if not V.symbolic:
+                obs["_bin:%s:%s" % (t, sk)] = np.array(b_in, copy=True)      # (replay only: not an observable of the twin)
             if P is not None and check:
+                # the caller's right-hand side is an input, not work space
+                P.arrays_eq("%s:%s:%s:rhs-unchanged" % (tag, t, sk), b_in, b, kind="%s:rhs-unchanged" % tag)
                 P.arrays_eq("%s:%s:%s" % (tag, t, sk), x, xs, kind="%s:%s" % (tag, t))
                 P.holds("%s:%s:%s:shape" % (tag, t, sk), np.shape(x) == np.shape(b), kind="%s:shape" % tag)
     return obs
@@ -1497,6 +1504,10 @@ def replay(cfg, label, env, case):
         t, sk = parts[1], parts[2]
         M = np.asarray(obs["M"] if kind == "precond" else obs["A"], dtype=complex)
         x, b = obs["x:%s:%s" % (t, sk)], obs["b:%s:%s" % (t, sk)]
+        if label.split("[")[0].endswith(":rhs-unchanged"):
+            bi = obs.get("_bin:%s:%s" % (t, sk))
+            ch = float(np.max(np.abs(np.asarray(bi, dtype=complex) - np.asarray(b, dtype=complex)))) if bi is not None else 0.0
+            return dict(reproduced=bool(ch > 0), detail=dict(trans=t, shape=sk, max_abs_change_of_the_callers_rhs=ch))
         if label.endswith(":shape"):
             bad = np.shape(x) != np.shape(b)
             return dict(reproduced=bool(bad), detail=dict(shape_x=list(np.shape(x)), shape_b=list(np.shape(b))))
